@@ -219,10 +219,32 @@ func (g *gen) funcBody(i int, depth int) ([]zn.Stmt, []zn.Catch) {
 			g.labels["call-into-module"] = true
 		}
 		r := "R" + tag
-		body = append(body, &zn.Let{Names: []string{r}, E: call})
+		switch g.pick(5, "callsite") {
+		case 0: // the protected call sits inside a 遍历 pass (the loop's own scope is open when the exception passes)
+			body = append(body, &zn.Let{Names: []string{r}, E: num(-5)},
+				&zn.ForEach{Names: []string{"I" + tag}, E: &zn.ListLit{Items: []zn.Expr{num(1), num(2)}}, Body: []zn.Stmt{
+					&zn.Let{Names: []string{"B" + tag}, E: v("I" + tag)},
+					&zn.ExprStmt{E: &zn.Assign{Target: v(r), E: call}},
+					show(tag+"-in-loop", v("B"+tag)),
+				}})
+			g.labels["call-inside-foreach"] = true
+		case 1: // inside a 每当 pass and a branch
+			body = append(body, &zn.Let{Names: []string{r}, E: num(-5)}, &zn.Let{Names: []string{"N" + tag}, E: num(0)},
+				&zn.While{Cond: &zn.Bin{Op: "<", L: v("N" + tag), R: num(2)}, Body: []zn.Stmt{
+					&zn.ExprStmt{E: &zn.Assign{Target: v("N" + tag), E: &zn.Bin{Op: "+", L: v("N" + tag), R: num(1)}}},
+					&zn.If{Conds: []zn.Expr{&zn.BoolLit{V: true}}, Blocks: [][]zn.Stmt{{&zn.ExprStmt{E: &zn.Assign{Target: v(r), E: call}}}}},
+				}})
+			g.labels["call-inside-while"] = true
+		default:
+			body = append(body, &zn.Let{Names: []string{r}, E: call})
+		}
 		// probes after the protected call: own local, own input, result, a main-module method
 		body = append(body, show(tag+"-after", v(r), v(local), v("P")), show(tag+"-probe-main", &zn.Call{Name: "Helper", Args: []zn.Expr{v(local)}}))
 		g.probes += 2
+		if g.useMod {
+			body = append(body, show(tag+"-probe-module", &zn.Call{Name: "G2", Args: []zn.Expr{v(local)}}))
+			g.probes++
+		}
 		if g.pick(6, "probe-callee-local") == 0 {
 			body = append(body, show(tag+"-callee-local", v(fmt.Sprintf("LF%d", callee))))
 			g.labels["probe-callee-local"] = true
@@ -260,6 +282,9 @@ func (g *gen) program() (*zn.Program, map[string]*zn.Program) {
 				&zn.ExprStmt{E: &zn.Assign{Target: &zn.This{Name: "码"}, E: v("C")}}}},
 			&zn.ClassDef{Name: "E2", Props: []zn.Prop{{Name: "内容", Init: str("e2-default")}}},
 			&zn.FuncDef{Name: "G1", Params: []string{"P"}, Body: gb, Catches: g.handlers("G1")},
+			// a method of the module that relies on another method and a type of its own module
+			&zn.FuncDef{Name: "G3", Params: []string{"P"}, Body: []zn.Stmt{&zn.Return{E: &zn.Bin{Op: "+", L: v("P"), R: num(300)}}}},
+			&zn.FuncDef{Name: "G2", Params: []string{"P"}, Body: []zn.Stmt{&zn.Let{Names: []string{"OG"}, E: &zn.New{Class: "E2"}}, &zn.Return{E: &zn.Call{Name: "G3", Args: []zn.Expr{v("P")}}}}},
 		}}
 		mods["甲"] = m
 	}
@@ -293,6 +318,9 @@ func (g *gen) program() (*zn.Program, map[string]*zn.Program) {
 	for c := 0; c < ncalls; c++ {
 		r := fmt.Sprintf("Rm%d", c)
 		p.Body = append(p.Body, &zn.Let{Names: []string{r}, E: &zn.Call{Name: "F1", Args: []zn.Expr{num(float64(c))}}}, show("main-after", v(r), v("Lmain")), show("main-probe", &zn.Call{Name: "Helper", Args: []zn.Expr{num(float64(c))}}))
+		if g.useMod {
+			p.Body = append(p.Body, show("main-probe-module", &zn.Call{Name: "G2", Args: []zn.Expr{num(float64(c))}}))
+		}
 	}
 	if g.pick(4, "final-fault") == 0 {
 		g.labels["final-uncaught-fault"] = true
